@@ -100,7 +100,8 @@ func runCase(t *testing.T, cs *Case) *Obs {
 			conf.Net.Proxy.Dialer = cl
 			conf.Metadata.RefreshFrequency = 0
 			conf.Metadata.Retry.Max = 0
-			conf.Metadata.Retry.Backoff = 0
+			// Metadata.Retry.Backoff and Admin.Retry.Backoff keep their defaults (250 ms / 100 ms of fake time): what happens between two
+			// attempts may depend on the time that passed
 			conf.Admin.Retry.Max = cs.RetryMax
 			if err := conf.Validate(); err != nil {
 				o.EngineErr = "config rejected: " + err.Error()
